@@ -151,6 +151,23 @@ def api_level(op: str, sign: bool, action: str, flavour: str) -> tuple[str, str]
         return refdc.get_key_response(env, 0)
 
     def on_conn(c: refdc.Connection) -> None:
+        if c.port == 135 and action.startswith("epm_redirect"):
+            # the endpoint-mapper hop is unauthenticated: anyone can answer it.  The forged answer points back at port 135, where
+            # the same party answers the bind without verifier and any request with a cleartext stub of its own.
+            def redirect(kind: str, reply: bytes, cc: refdc.Connection) -> bytes:
+                h = refdc.parse_header(reply)
+                if cc.id == 1:
+                    if kind != "response":
+                        return reply
+                    tw = refdc.tower_octets(refdc.tcp_tower(refdc.ISD_KEY, 135))
+                    return refdc.finish_pdu(refdc.PT_RESPONSE, 3, h["call_id"], refdc.response_body(refdc.ept_map_response([tw], 0)))
+                if kind in ("bind_ack", "alter_resp"):
+                    body = refdc.bind_ack_body([(0, 0, refdc.NDR64), (3, 3, (uuid.UUID(int=0), 0, 0))], "135")
+                    return refdc.finish_pdu(refdc.PT_BIND_ACK if kind == "bind_ack" else refdc.PT_ALTER_RESP, 3, h["call_id"], body)
+                return refdc.finish_pdu(refdc.PT_RESPONSE, 3, h["call_id"], refdc.response_body(evil_stub(reply)))
+
+            c.mangle = redirect
+            return
         if c.port == 135:
             return
 
@@ -325,7 +342,7 @@ def run(ctx: Ctx) -> int:
     for op in ("unprotect", "protect"):
         for sign in (True, False):
             for action in ("pass", "strip", "inject_clear_seed", "inject_clear_pub", "inject_bogus_trailer_seed", "inject_bogus_trailer_pub", "fault",
-                           "downgrade_bind_seed", "downgrade_bind_pub"):
+                           "downgrade_bind_seed", "downgrade_bind_pub", "epm_redirect_seed", "epm_redirect_pub"):
                 for flavour in ("sync", "async"):
                     out, detail = api_level(op, sign, action, flavour)
                     LAST_CALL[0] = lambda op=op, sign=sign, action=action, flavour=flavour: api_level(op, sign, action, flavour)[0]
